@@ -16,12 +16,70 @@ HARNESS_TIMEOUT = 60
 ALPHABET = list("'\"b0xoe.=<>&|/#_a1-+(){}[]:;,\n") + ["é", " "]
 TOKENS = ["x", "y", "1", "0x1", "0o7", "0b1", "1.5", "'a'", "b'a'", '"s"', "=", "+", "-", "*", "/", "%", "!", "&&", "||", "<", "<=", ">", ">=", "==", "!=", "=>", "&", "|", "^", "~", "<<", ">>",
           ",", ":", ";", "(", ")", "{", "}", "[", "]", "$", "fn", "let", "true", "false", "if", "else", "return", "map", "loop", "while", "break", "continue", "..", "..=", "match", "@", "struct", ".", "end", "null", "_",
-          "stdin", "lbl:", "'", "b'", "0x", "1e", "\"", "#c\n", "//c\n", "\n"]
+          "stdin", "lbl:", "'", "b'", "0x", "1e", "\"", "#c\n", "//c\n", "\n", "\"\"", "''", "b''"]
 CORE = ["x", "1", "0x1", "=", "(", ")", "{", "}", "[", "]", ",", ";", ":", "let"]
+
+
+BINARY_PROFILES = ["dev"]
 
 
 def hexs(s):
     return s.encode("utf-8").hex()
+
+
+# ---- end to end: "a program for which diagnostics were reported is not executed" (the gate lives in main.rs)
+GATE_PREFIX = 'puts("@@RAN");\n'
+GATE_BAD = ["let t = 1 + ;", "[", ")", "let = 3;", "1 +", "fn (", "let t = 1 + ;\nlet u = * 2;", "[ ) ]", "undefined_q;", "break;", "return 1;", "let a = 1; a = ;",
+            "match 1 { 1 => 2, \"a\" => 3 }", "x = 1;", "1 = 2;", "}", "if true { puts(1) ", "'ab'", "\"unterminated", "0x", "let t = 1 +\n;\nputs(2);", "@ 1 +"]
+GATE_GOOD = ["let t = 1 + 2;", "", "puts(\"two\");", "fn f() { 1 } f();"]
+
+
+def run_gate(exe, scratch, idx, c):
+    import os, subprocess
+    path = os.path.join(scratch, f"g{idx}.p2")
+    with open(path, "w", encoding="utf-8") as f:
+        f.write(bytes.fromhex(c.line.split(" ")[1]).decode("utf-8"))
+    try:
+        p = subprocess.run([exe, path], stdin=subprocess.DEVNULL, stdout=subprocess.PIPE, stderr=subprocess.PIPE, timeout=30)
+    except subprocess.TimeoutExpired:
+        return "HANG"
+    err = p.stderr.decode("utf-8", "replace")
+    if "panicked" in err:
+        return "PANIC " + err[:160].encode("utf-8").hex()
+    if p.returncode < 0 or p.returncode in (101, 134, 139):
+        return f"ABORT({p.returncode})"
+    diag = ("parse error" in err) or ("compile error" in err) or ("failed to parse" in err)
+    return f"gate diag={'t' if diag else 'f'} ran={'t' if b'@@RAN' in p.stdout else 'f'}"
+
+
+def run_impl(ctx, cases):
+    import concurrent.futures as cf
+    import vlib
+    outs = [None] * len(cases)
+    hidx = [k for k, c in enumerate(cases) if "e2e-gate" not in c.tags]
+    hout = vlib.run_parallel(ctx.harness, [cases[k].line for k in hidx], timeout=HARNESS_TIMEOUT, label="harness") if ctx.harness else ["NOHARNESS"] * len(hidx)
+    for k, o in zip(hidx, hout):
+        outs[k] = o
+    gidx = [k for k, c in enumerate(cases) if "e2e-gate" in c.tags]
+    exe = ctx.p2sh.get("dev")
+    if not exe:
+        for k in gidx:
+            outs[k] = "NOHARNESS"
+    else:
+        scratch = ctx.mkscratch()
+        with cf.ThreadPoolExecutor(max_workers=16) as ex:
+            for k, o in zip(gidx, ex.map(lambda k: run_gate(exe, scratch, k, cases[k]), gidx)):
+                outs[k] = o
+    return outs
+
+
+def judge(c):
+    if "e2e-gate" not in c.tags:
+        return None
+    if not c.impl.startswith("gate "):
+        return False
+    # either the program ran or diagnostics were reported — never both
+    return c.impl in ("gate diag=t ran=f", "gate diag=f ran=t")
 
 
 def canon(s):
@@ -29,7 +87,7 @@ def canon(s):
 
 
 def nontrivial(c):
-    return c.impl.startswith(("toks", "bc", "cerr", "perr", "ok (prog"))
+    return c.impl.startswith(("toks", "bc", "cerr", "perr", "ok (prog", "gate "))
 
 
 def classify(c):
@@ -175,6 +233,24 @@ def cases(ctx):
             combos = (tuple(rng.choice(TOKENS) for _ in range(3)) for _ in range(60000))
         for t in combos:
             out.append(Case("compile " + hexs(" ".join(t)), ("token-seq",)))
+    # error recovery after a rejected assignment target: every literal kind as the target x right-hand sides whose token has an
+    # empty or unusual literal x what follows (end of input, a statement keyword, a separator), also inside a function body
+    targets = ["1", "1.5", "0x1", "'a'", "b'a'", "\"s\"", "\"\"", "true", "null", "[1]", "map {}", "(x)", "-x", "!x", "x()", "fn() {}", "_", "$1", "1..2"]
+    rhss = ["\"\"", "\"", "''", "b''", "'", "1", "x", "", "=", "\"s\""]
+    tails = ["", "\nlet m = 2;", " return x;", ";", " }", "\n\"\"", " ="]
+    for tg in targets:
+        for rh in rhss:
+            for tl in tails:
+                out.append(Case("compile " + hexs(f"{tg} = {rh}{tl}"), ("assign-recovery",)))
+                out.append(Case("compile " + hexs(f"fn(x) {{ {tg} = {rh}{tl} }}"), ("assign-recovery",)))
+    for b in GATE_BAD + GATE_GOOD:
+        out.append(Case("compile " + hexs(GATE_PREFIX + b + "\n"), ("e2e-gate",)))
+        out.append(Case("compile " + hexs(b + "\n" + GATE_PREFIX), ("e2e-gate",)))
+    for _ in range(ctx.scale(150, 3000)):
+        # (no loops, no input: a text that happens to be a valid non-terminating or blocking program is not this engine's business)
+        gate_tokens = [x for x in TOKENS if x not in ("loop", "while", "stdin", "fn", "@")]
+        t = " ".join(rng.choice(gate_tokens) for _ in range(rng.randint(1, 8)))
+        out.append(Case("compile " + hexs(GATE_PREFIX + t + "\n"), ("e2e-gate",)))
     core5 = itertools.product(CORE, repeat=5)
     step = 1 if ctx.thorough() else 9
     for i, t in enumerate(core5):
